@@ -80,7 +80,8 @@ pub fn universe_x(p: Profile, test_body: &[we::Instruction], export_all: bool) -
     } else { e.export("f1", we::ExportKind::Func, 1); }
     m.section(&e);
     let mut el = we::ElementSection::new();
-    for _ in 0..4 { el.passive(we::Elements::Functions(&[0, 1])); }
+    // segment 1 is a DECLARED segment: element indices behind it must not shift
+    for k in 0..4 { if k == 1 { el.declared(we::Elements::Functions(&[0, 1])); } else { el.passive(we::Elements::Functions(&[0, 1])); } }
     m.section(&el);
     m.section(&we::DataCountSection { count: 4 });
     let mut c = we::CodeSection::new();
